@@ -8,6 +8,7 @@
 package main
 
 import (
+	"bytes"
 	"encoding/json"
 	"flag"
 	"fmt"
@@ -58,7 +59,8 @@ func run(out, prop string, n int, replay string, seed uint64, tmp string) int {
 	sum := hutil.NewSummary(prop, seed,
 		"one daemon process per scenario, fed through two real FIFOs: 1-8 sessions (accepted password / publickey / certificate login + LOGIN record + 0-6 events + optional CRED_DISP + optional strays; "+
 			"cron-like sessions without sshd login; console-like sessions without LOGIN record; unset-session records; sshd logins without audit session; failed-password / invalid-user lines), "+
-			"1-4 phases in which both pipes are written concurrently with writes split at arbitrary byte offsets; oracles evaluated on the output file from the generated history alone; "+
+			"1-4 phases in which both pipes are written concurrently with writes split at arbitrary byte offsets; one scenario in four with LARGE events (execve events whose argument list makes the "+
+			"UserAction line 4-70 KiB, certificate logins with key ids / account names of some KiB, a burst of stand-alone failure lines on the sshd pipe for as long as the audit pipeline is writing the large events, no pacing, GOMAXPROCS >= 2); oracles evaluated on the output file from the generated history alone; "+
 			"non-trivial = at least one session with both halves, at least one UserAction in the output and completeness established by the sentinel; distinct by scenario")
 	sum.CaseFiles = nil
 	finish := func() {
@@ -89,7 +91,7 @@ func run(out, prop string, n int, replay string, seed uint64, tmp string) int {
 	r := hutil.NewRand(hutil.NewRand(seed ^ 0xDAE404).U64())
 	scs := make([]*scenario, n)
 	for i := range scs {
-		scs[i] = genScenario(r) // generation is sequential: deterministic in the seed
+		scs[i] = genScenario(r, i%4 == 2) // generation is sequential: deterministic in the seed; every fourth scenario with large events
 	}
 	results := make([]runResult, n)
 	var wg sync.WaitGroup
@@ -107,7 +109,7 @@ func run(out, prop string, n int, replay string, seed uint64, tmp string) int {
 
 	for i, sc := range scs {
 		res := results[i]
-		v := judge(sc, res.Output)
+		v := judge(sc, res.Output, res.Storm)
 		record(sum, prop, sc, res, v, i)
 	}
 	sum.Notes = append(sum.Notes, fmt.Sprintf("daemon built from %s in %.1fs", repoDir(), buildSecs))
@@ -133,6 +135,42 @@ func record(sum *hutil.Summary, prop string, sc *scenario, res runResult, v verd
 	sum.Dist("sync_" + res.Sync)
 	sum.Dist(fmt.Sprintf("gomaxprocs_%d", sc.GoMaxProcs))
 	sum.Dist("log_level_" + map[bool]string{true: "default", false: sc.LogLevel}[sc.LogLevel == ""])
+	if sc.Big {
+		sum.Dist("large_events_scenario")
+		sum.Distribution["total_sshd_burst_lines"] += res.Storm
+		for _, a := range sc.Audit {
+			switch {
+			case a.ArgBytes >= 16384:
+				sum.Dist("execve_arguments_16k_to_70k")
+			case a.ArgBytes > 4096:
+				sum.Dist("execve_arguments_4k_to_16k")
+			case a.ArgBytes > 0:
+				sum.Dist("execve_arguments_about_4k")
+			}
+		}
+		for _, l := range sc.Sshd {
+			if len(l.Msg) > 4096 {
+				sum.Dist("sshd_line_longer_than_4096")
+			}
+		}
+		// how close the two pipelines' writes came: output lines beyond one page whose neighbour was written by the other pipeline
+		lines := bytes.Split(res.Output, []byte("\n"))
+		comp := func(l []byte) int {
+			if bytes.Contains(l, []byte(`"component":"sshd"`)) {
+				return 1
+			}
+			return 2
+		}
+		for i, l := range lines {
+			if len(l) <= 4096 {
+				continue
+			}
+			sum.Distribution["total_output_lines_longer_than_4096"]++
+			if (i > 0 && len(lines[i-1]) > 0 && comp(lines[i-1]) != comp(l)) || (i+1 < len(lines) && len(lines[i+1]) > 0 && comp(lines[i+1]) != comp(l)) {
+				sum.Distribution["total_output_lines_longer_than_4096_next_to_a_line_of_the_other_pipeline"]++
+			}
+		}
+	}
 	ws := sc.writeStats()
 	sum.Distribution["total_writes"] += ws.writes
 	sum.Distribution["total_writes_ending_mid_record"] += ws.split
@@ -232,7 +270,7 @@ func doReplay(path, prop, bin, tmp string) int {
 	const tries = 30
 	for i := 0; i < tries; i++ {
 		res := runScenario(bin, filepath.Join(tmp, fmt.Sprintf("replay%d", i)), sc)
-		v := judge(sc, res.Output)
+		v := judge(sc, res.Output, res.Storm)
 		if res.HarnessKey != "" {
 			harnessTrouble = true
 			fmt.Printf("run %d: %s: %s\n", i+1, res.HarnessKey, res.HarnessErr)
